@@ -779,84 +779,97 @@ func (n *npCtx) lenAxioms(a string, x ssa.Value) {
 // exactly one element on every trip (every back edge carries append(S, e)), and the loop is left only
 // by exhausting the range. At a use after the loop len(S) = len(Y).
 func (n *npCtx) collectLen(a string, p *ssa.Phi) {
-	if n.use == nil || !isSliceT(p.Type()) {
+	if n.use == nil {
 		return
 	}
-	hdr := p.Block()
-	var loop *Loop
-	for _, l := range loopsOf(hdr.Parent()) {
-		if l.Header == hdr {
-			loop = l
-		}
-	}
-	if loop == nil || loop.Blocks[n.use.Block()] {
-		return
-	}
-	for i, e := range p.Edges {
-		pred := hdr.Preds[i]
-		if !loop.Blocks[pred] {
-			// initial value: an empty slice
-			switch x := n.c.resolve(e).(type) {
-			case *ssa.MakeSlice:
-				if k, ok := constInt(x.Len); !ok || k != 0 {
-					return
-				}
-			case *ssa.Const:
-				if x.Value != nil {
-					return
-				}
-			default:
-				return
-			}
-			continue
-		}
-		call, ok := e.(*ssa.Call)
-		if !ok || n.c.calleeName(call.Common()) != "append" || len(call.Call.Args) != 2 || call.Call.Args[0] != ssa.Value(p) {
-			return
-		}
-		if es := sliceLitElems(call.Call.Args[1]); len(es) != 1 {
-			return
-		}
-	}
-	// the loop: `for … range Y`, left only at the header
-	for _, e := range loop.exits() {
-		if e.B != hdr {
-			return
-		}
-	}
-	iff, ok := hdr.Instrs[len(hdr.Instrs)-1].(*ssa.If)
-	if !ok {
-		return
-	}
-	bo, ok := iff.Cond.(*ssa.BinOp)
-	if !ok || bo.Op != token.LSS {
-		return
-	}
-	// index: phi{-1 | idx+1} + 1 < len(Y)
-	inc, ok := bo.X.(*ssa.BinOp)
-	if !ok || inc.Op != token.ADD {
-		return
-	}
-	ip, ok := inc.X.(*ssa.Phi)
-	if k, isC := constInt(inc.Y); !ok || !isC || k != 1 || ip.Block() != hdr {
-		return
-	}
-	for i, e := range ip.Edges {
-		if !loop.Blocks[hdr.Preds[i]] {
-			if k, ok := constInt(e); !ok || k != -1 {
-				return
-			}
-		} else if e != ssa.Value(inc) {
-			return
-		}
-	}
-	y, ok := isLenCall(bo.Y)
-	if !ok {
+	y, _, loop, ok := collectIdiom(n.c, p)
+	if !ok || loop.Blocks[n.use.Block()] {
 		return
 	}
 	ya := n.lenAtom(y)
 	n.addLe(lin{a, 0}, lin{ya, 0})
 	n.addLe(lin{ya, 0}, lin{a, 0})
+}
+
+// collectIdiom: p is a slice built by the "collect" idiom — empty before a `for … range Y` loop,
+// extended by exactly one element on every trip (every back edge carries append(p, e)), the loop left
+// only by exhausting the range. Returns Y, the element appended and the loop.
+func collectIdiom(c *Ctx, p *ssa.Phi) (y ssa.Value, elem ssa.Value, loop *Loop, ok bool) {
+	if !isSliceT(p.Type()) {
+		return nil, nil, nil, false
+	}
+	hdr := p.Block()
+	for _, l := range loopsOf(hdr.Parent()) {
+		if l.Header == hdr {
+			loop = l
+		}
+	}
+	if loop == nil {
+		return nil, nil, nil, false
+	}
+	for i, e := range p.Edges {
+		pred := hdr.Preds[i]
+		if !loop.Blocks[pred] {
+			// initial value: an empty slice
+			switch x := c.resolve(e).(type) {
+			case *ssa.MakeSlice:
+				if k, isK := constInt(x.Len); !isK || k != 0 {
+					return nil, nil, nil, false
+				}
+			case *ssa.Const:
+				if x.Value != nil {
+					return nil, nil, nil, false
+				}
+			default:
+				return nil, nil, nil, false
+			}
+			continue
+		}
+		call, isCall := e.(*ssa.Call)
+		if !isCall || c.calleeName(call.Common()) != "append" || len(call.Call.Args) != 2 || call.Call.Args[0] != ssa.Value(p) {
+			return nil, nil, nil, false
+		}
+		es := sliceLitElems(call.Call.Args[1])
+		if len(es) != 1 {
+			return nil, nil, nil, false
+		}
+		elem = es[0]
+	}
+	for _, e := range loop.exits() {
+		if e.B != hdr {
+			return nil, nil, nil, false
+		}
+	}
+	iff, isIf := hdr.Instrs[len(hdr.Instrs)-1].(*ssa.If)
+	if !isIf {
+		return nil, nil, nil, false
+	}
+	bo, isBo := iff.Cond.(*ssa.BinOp)
+	if !isBo || bo.Op != token.LSS {
+		return nil, nil, nil, false
+	}
+	inc, isInc := bo.X.(*ssa.BinOp)
+	if !isInc || inc.Op != token.ADD {
+		return nil, nil, nil, false
+	}
+	ip, isPhi := inc.X.(*ssa.Phi)
+	if k, isC := constInt(inc.Y); !isPhi || !isC || k != 1 || ip.Block() != hdr {
+		return nil, nil, nil, false
+	}
+	for i, e := range ip.Edges {
+		if !loop.Blocks[hdr.Preds[i]] {
+			if k, isK := constInt(e); !isK || k != -1 {
+				return nil, nil, nil, false
+			}
+		} else if e != ssa.Value(inc) {
+			return nil, nil, nil, false
+		}
+	}
+	yv, isLen := isLenCall(bo.Y)
+	if !isLen || elem == nil {
+		return nil, nil, nil, false
+	}
+	return yv, elem, loop, true
 }
 
 // assume adds the constraints implied by a branch condition.
